@@ -149,4 +149,16 @@ CHECKS = {
              "each case issues the benign twin first; distinct_nontrivial = distinct hostile requests that produced a statement",
         assumptions=["lexer", "bun interpolates client-side (verified: the driver receives no bound arguments for these queries)"],
     ),
+    "C04": dict(
+        claim="PARTIAL (Go half only). The projection itself (handle_log / insert_move / volume functions) is PL/pgSQL executed inside PostgreSQL and no PostgreSQL exists in this sandbox, so 'what is reported equals the replay of the log' cannot be observed end to end by any runtime tool here. Monitored: (1) ledger isolation of the read path - every statement that each Store read method emits (15 methods x PIT / expand flags / filter expressions, two stores sharing one bucket DB) is parsed into SELECT blocks and every reference to a ledger-scoped table must be constrained by ledger = '<this store>', tied by a *_seq equality to a table that is, or be a schema function called with the ledger literal first; the other ledger's name must never appear.",
+        note="Trusted base (NOT verified): migrations/0-init-schema.sql and PostgreSQL's execution of it (volumes, effective dates, metadata revisions, reverted_at), bucket assignment. A defect confined to the SQL file is invisible to this check. The statement-structure analysis (sqlmon/c04.go) is a heuristic parser validated by removing each ledger condition in turn (6/6 detected).",
+        technique="recording database/sql driver + structural oracle over every emitted read statement (ledger scoping)",
+        engine="sqlmon", level="exploration",
+        runs=[dict(mode="", shards={"quick": 2, "thorough": 8}, timeout=T)],
+        thresholds={"quick": {"evaluations": 3000, "statements_checked": 2500, "method_GetLogs": 100, "method_GetAggregatedBalances": 100, "method_GetTransactions": 100, "method_GetAccountsWithVolumes": 100, "method_GetBalance": 100},
+                    "thorough": {"evaluations": 60000}},
+        rule="call = (store read method, point-in-time nil/zero/set, expandVolumes, expandEffectiveVolumes, filter expression drawn from the keys the method accepts incl. and/or/not); "
+             "distinct_nontrivial = distinct (method, statement skeleton) pairs observed",
+        assumptions=["PostgreSQL executes the schema's SQL as intended (not checked)", "*_seq columns are bucket-wide unique, so a seq join inherits the ledger of the joined row"],
+    ),
 }
